@@ -19,7 +19,7 @@ import (
 func init() {
 	fw.Register(&fw.Check{
 		ID: "C19", Level: "model_checking",
-		Rule: "(a) ALL first-segment strings of length 1..5 (quick) / 1..7 (thorough) over {_ % . space a 5 F é @} through the automatic tag-name function: one pass builds name -> segment and requires injectivity (a for-all-pairs statement) and, end to end for length <= 3, that the interaction carries exactly that tag; (b) documents: URL block (implicit / parenthesised) with URL-level Tags in {none, one, two} x two methods each with own Tags in {none, one, two} x protocol {http, json-rpc} x a path-bearing method that follows (hoisted out of the implicit block) x tags declared before / after use, with / without annotation and description x undeclared tag; oracle: own Tags, else the enclosing URL's, else the single automatic tag; tag entries and interactions reference each other mutually; title = annotation or name; undeclared => rejected; non-trivial = every document / every string with an escaped character; distinct = distinct documents and strings ; E-REFCAT (see C04) over the fixtures, the pool selections and every document the generators of C04 and C13 build: tags of every interaction = own Tags, else the enclosing URL's, else the automatic tag; tag entries = declared + automatic, mutual membership, titles; undeclared tag => rejected ; the two methods of the block in every HTTP method kind (each kind once first with Tags as first child, once second with Tags as last child)",
+		Rule: "(a) ALL first-segment strings of length 1..5 (quick) / 1..7 (thorough) over {_ % . space a 5 F é @} through the automatic tag-name function: one pass builds name -> segment and requires injectivity (a for-all-pairs statement) and, end to end for length <= 3, that the interaction carries exactly that tag; (b) documents: URL block (implicit / parenthesised) with URL-level Tags in {none, one, two} x two methods each with own Tags in {none, one, two} x protocol {http, json-rpc} x a path-bearing method that follows (hoisted out of the implicit block) x tags declared before / after use, with / without annotation and description x undeclared tag; oracle: own Tags, else the enclosing URL's, else the single automatic tag; tag entries and interactions reference each other mutually; title = annotation or name; undeclared => rejected; non-trivial = every document / every string with an escaped character; distinct = distinct documents and strings ; E-REFCAT (see C04) over the fixtures, the pool selections and every document the generators of C04 and C13 build: tags of every interaction = own Tags, else the enclosing URL's, else the automatic tag; tag entries = declared + automatic, mutual membership, titles; undeclared tag => rejected ; the two methods of the block in every HTTP method kind (each kind once first with Tags as first child, once second with Tags as last child) ; a bare Description directly before each method's Tags (the free text ends where the Tags line starts)",
 		Run:  runC19, QuickCap: 8 * time.Minute, ThoroughCap: 40 * time.Minute,
 	})
 }
